@@ -7,7 +7,7 @@ from vf.treeform import canon, diff_bucket, renumber_blocks, norm_text, class_na
 ID = "C01"
 BUDGET = {"quick": 2400, "thorough": 40000}
 RULE = ("Programs drawn from generator G (nested units, spec/exec constructs, labelled and named constructs, "
-        "expressions, I/O, FORMAT, F2008 extras) x std x ignore_comments (comments inserted by the free-form "
+        "expressions, I/O, FORMAT, F2008 extras; half of them in the optional spellings the printer normalises) x std x ignore_comments (comments inserted by the free-form "
         "engine when kept). Oracle: parse accepts; str(T) re-parses; canonical trees equal; second print "
         "identical (modulo trailing blank lines, BLOCK numbering). Non-trivial = nesting depth >= 2 or a "
         "statement with label and construct name; distinct by hash of the case.")
@@ -17,9 +17,13 @@ ASSUMPTIONS = ["generator G only emits standard-conforming programs (its soundne
 
 
 def build(rnd, tier, flags):
-    units, flat, g = progs.make_program(rnd, flags)
     r = gen.R(rnd)
+    # half of the programs use the optional spellings of G's templates ('call s()', 'endif', 'integer i', ...):
+    # the printer normalises them, so the first print differs from the source and the second parse sees new text
+    variants = r.chance(50)
+    units, flat, g = progs.make_program(rnd, flags, variants=variants)
     meta = progs.meta_of(flat)
+    meta["variants"] = variants
     std = "f2008" if (meta["f08"] or g.o.f08) else r.pick(["f2003", "f2008"])
     keep = r.chance(40)
     if keep:
@@ -43,6 +47,8 @@ def evaluate(case):
         labels.append("uses_f2008")
     if meta.get("n_units", 0) > 1:
         labels.append("multi_unit")
+    if meta.get("variants"):
+        labels.append("optional-spellings")
     kw = {"process_directives": True} if case.get("process_directives") else {}
     if kw:
         labels.append("process_directives")
